@@ -251,31 +251,38 @@ def urlLoop : Nat → Bytes → PP → UL → PP × UL
       urlLoop fuel d pp' l'
     else (pp, l)
 
+/-- after the loop: `if (NULL != start_key) { … save the key piece … }`; `false` = `return MHD_NO` -/
+def urlTailKey (d : Bytes) (pp : PP) (l : UL) : PP × Bool :=
+  match l.startKey with
+  | none => (pp, true)
+  | some sk =>
+    let ek := l.endKey.getD l.poff
+    if ek < sk then (pp.setFault "tail-key-ptr", false) else
+    if pp.bufferPos + (ek - sk) ≥ pp.bufferSize then ({ pp with state := .error }, false)
+    else (appendKey d pp sk (ek - sk), true)
+
+/-- `if ((NULL != last_escape) && (2 < (end_value - last_escape))) last_escape = NULL;` -/
+def tailEscape (le : Option Nat) (ev : Nat) : Option Nat :=
+  match le with
+  | some x => if 2 < ev - x then none else some x
+  | none => none
+
+/-- after the loop: `if ((NULL != start_value) && (PP_ProcessValue == pp->state)) { … }` -/
+def urlTailValue (d : Bytes) (pp1 : PP) (l : UL) : PP :=
+  if l.startValue.isSome ∧ pp1.state = .processValue then
+    let pp1a := if pp1.mustUnescapeKey then unescapeKey pp1 else pp1
+    if pp1a.fault.isSome then pp1a else
+    let ev := l.endValue.getD l.poff
+    let pp1b := processValue d pp1a l.startValue (some ev) (tailEscape l.lastEscape ev)
+    { pp1b with mustIkvi := false }
+  else pp1
+
 /-- the part of `post_process_urlencoded` after the loop ("save remaining data") -/
 def urlTail (d : Bytes) (pp : PP) (l : UL) : PP × Bool :=
   if pp.state = .error then (pp, false) else
-  -- if (NULL != start_key) …
-  let r : PP × Bool :=
-    match l.startKey with
-    | none => (pp, true)
-    | some sk =>
-      let ek := l.endKey.getD l.poff
-      if ek < sk then (pp.setFault "tail-key-ptr", false) else
-      if pp.bufferPos + (ek - sk) ≥ pp.bufferSize then ({ pp with state := .error }, false)
-      else (appendKey d pp sk (ek - sk), true)
+  let r := urlTailKey d pp l
   if r.2 = false ∨ r.1.fault.isSome then (r.1, false) else
-  let pp1 := r.1
-  let pp2 :=
-    if l.startValue.isSome ∧ pp1.state = .processValue then
-      let pp1a := if pp1.mustUnescapeKey then unescapeKey pp1 else pp1
-      if pp1a.fault.isSome then pp1a else
-      let ev := match l.endValue with | some e => e | none => l.poff
-      let le := match l.lastEscape with
-        | some x => if 2 < ev - x then none else some x
-        | none => none
-      let pp1b := processValue d pp1a l.startValue (some ev) le
-      { pp1b with mustIkvi := false }
-    else pp1
+  let pp2 := urlTailValue d r.1 l
   if pp2.state = .error then (pp2, false) else (pp2, true)
 
 /-- `post_process_urlencoded (pp, post_data, post_data_len)`; result = `MHD_YES`? -/
